@@ -1,5 +1,6 @@
 (* Props/C03.v — results depend only on the arguments, not on earlier calls.  Statements only. *)
 From AV Require Import Base.Prelude Gen.CacheSites Model.Cache Proofs.CacheProofs Proofs.CacheLayers.
+From AV Require Import Model.GlyfTableMemo Proofs.GlyfTableMemoProofs.
 Open Scope Z_scope.
 
 (* ---- the memoisation step in general --------------------------------------------------------------------------
@@ -220,3 +221,33 @@ Example C03_ex_lazy_error_retried :
   snd (get_or_load (@NotLoaded Z) (Err Eof)) = NotLoaded /\
   fst (get_or_load (snd (get_or_load (@NotLoaded Z) (Err Eof))) (Ok (Some 7))) = Ok (Some 7).
 Proof. vm_compute. auto. Qed.
+
+(* ---- the lazily parsed glyf table (GlyfRecord::parse, GlyfTable::get_parsed_glyph, visit_outline,
+   visit_composite_glyph_outline, OutlineBuilder::visit; Model/GlyfTableMemo.v) -----------------------------------
+   for EVERY parser of glyph data, EVERY table (records raw or already parsed, component indices arbitrary: out of
+   range, upwards, cyclic, nesting of any depth) and EVERY sequence of visit / get_parsed_glyph calls on ONE table -
+   failing calls included - each call answers what it answers on the freshly read table (t_spec is stateless), and
+   afterwards every record still means what it meant (what subset / write_dep / number_of_points read) *)
+Theorem C03_glyf_table_history_independent :
+  forall (R S : Type) (parse : R -> outcome (@glyph S)) (t0 : @table R S) (calls : list top),
+    fst (t_run parse t0 calls) = map (t_spec parse t0) calls /\
+    map (meaning parse) (snd (t_run parse t0 calls)) = map (meaning parse) t0 /\
+    length (snd (t_run parse t0 calls)) = length t0.
+Proof. intros R S parse. exact (glyf_table_history_independent parse). Qed.
+Print Assumptions C03_glyf_table_history_independent.
+
+Theorem C03_glyf_table_probe :
+  forall (R S : Type) (parse : R -> outcome (@glyph S)) (t0 : @table R S) (history : list top) (probe : top),
+    fst (t_step parse (snd (t_run parse t0 history)) probe) = fst (t_step parse t0 probe).
+Proof. intros R S parse. exact (glyf_table_probe parse). Qed.
+Print Assumptions C03_glyf_table_probe.
+
+(* non-vacuity, and the idiom the model excludes: taking a composite out of the table while its components are
+   drawn and putting it back only on success leaves empty glyphs behind after a failed query *)
+Example C03_ex_take_idiom_is_stale :
+  fst (visit_take ex_parse 7 ex_table 1) = Err BadIndex /\
+  fst (visit_take ex_parse 7 (snd (visit_take ex_parse 7 ex_table 1)) 1) = Ok [] /\
+  map (meaning ex_parse) (snd (visit_take ex_parse 7 ex_table 1)) <> map (meaning ex_parse) ex_table /\
+  fst (visit ex_parse (snd (visit ex_parse ex_table 1)) 1) = Err BadIndex /\
+  fst (visit ex_parse ex_table 3) = Ok [7].
+Proof. exact take_idiom_is_stale. Qed.
